@@ -29,8 +29,8 @@ def strictSlotT (sub : List Fld) (items : List Node) (nidx : Nat) : Outcome (Lis
   else if nidx = s0.length then .ok (s0 ++ [fresh sub])
   else .ok s0
 
-theorem strictSlot_fst (sub : List Fld) (ev : Ev) (items : List Node) (nidx : Nat) :
-    omap Prod.fst (strictSlot sub ev items nidx) = strictSlotT sub items nidx := by
+theorem strictSlot_fst (sub : List Fld) (ev : Ev) (touch : Nat → List Ev) (items : List Node) (nidx : Nat) :
+    omap Prod.fst (strictSlot sub ev touch items nidx) = strictSlotT sub items nidx := by
   unfold strictSlot strictSlotT
   by_cases h : items.isEmpty
   · simp only [h, if_true]
@@ -100,11 +100,11 @@ def stepMemberT (strict : Bool) :
           obind (stepMemberT strict sub (getAttr child q) q rest idxs pl) fun r =>
             .ok (.obj (setAttr child q r))
 
-theorem stepMember_fst (F : Facts03) (strict : Bool) (fields : List Fld) (cur : Node) (fk : FKey)
+theorem stepMember_fst (F : Facts03) (strict : Bool) (fields : List Fld) (cur : Node)
     (p : Text) (rest : List Text) (idxs : List Nat) (pl : Payload) :
-    omap Prod.fst (stepMember F strict fields cur fk p rest idxs pl) =
+    omap Prod.fst (stepMember F strict fields cur p rest idxs pl) =
       stepMemberT strict fields cur p rest idxs pl := by
-  induction rest generalizing fields cur fk p idxs with
+  induction rest generalizing fields cur p idxs with
   | nil =>
     simp only [stepMember, stepMemberT]
     cases assignNode cur pl <;> rfl
@@ -127,8 +127,11 @@ theorem stepMember_fst (F : Facts03) (strict : Bool) (fields : List Fld) (cur : 
             by_cases hs : strict
             · subst hs
               simp only [if_true]
-              have hss := strictSlot_fst sub ⟨fk, specOf fields, p, 1⟩ [] (popIdx idxs).1
-              cases hsl : strictSlot sub ⟨fk, specOf fields, p, 1⟩ [] (popIdx idxs).1 with
+              generalize htouch : (fun i => if F.freqTouch = true then
+                  [(⟨[((match F.freqScope with | .perMember => p | .perClass => natText cid), i)], specOf sub, [], 0⟩ : Ev)]
+                else []) = touch
+              have hss := strictSlot_fst sub ⟨[], specOf fields, p, 1⟩ touch [] (popIdx idxs).1
+              cases hsl : strictSlot sub ⟨[], specOf fields, p, 1⟩ touch [] (popIdx idxs).1 with
               | ok s =>
                 rw [hsl] at hss
                 simp only [omap_ok] at hss
@@ -140,7 +143,7 @@ theorem stepMember_fst (F : Facts03) (strict : Bool) (fields : List Fld) (cur : 
                   | obj child =>
                     simp only
                     rw [omap_obind, ← ih]
-                    cases stepMember F true sub (getAttr child q) _ q rest (popIdx idxs).2 pl <;> rfl
+                    cases stepMember F true sub (getAttr child q) q rest (popIdx idxs).2 pl <;> rfl
                   | none => rfl
                   | leaf _ => rfl
                   | leaves _ => rfl
@@ -150,16 +153,16 @@ theorem stepMember_fst (F : Facts03) (strict : Bool) (fields : List Fld) (cur : 
             · have hs' : strict = false := by simpa using hs
               subst hs'
               simp only [Bool.false_eq_true, if_false, obind_ok]
-              have hls := lenientSlot_fst sub ⟨fk, specOf fields, p, 1⟩ [] [] (popIdx idxs).1
+              have hls := lenientSlot_fst sub ⟨[], specOf fields, p, 1⟩ [] [] (popIdx idxs).1
               simp only [← hls]
-              cases hitem : (lenientSlot sub ⟨fk, specOf fields, p, 1⟩ [] [] (popIdx idxs).1).2.2.1[(lenientSlot sub ⟨fk, specOf fields, p, 1⟩ [] [] (popIdx idxs).1).1]? with
+              cases hitem : (lenientSlot sub ⟨[], specOf fields, p, 1⟩ [] [] (popIdx idxs).1).2.2.1[(lenientSlot sub ⟨[], specOf fields, p, 1⟩ [] [] (popIdx idxs).1).1]? with
               | none => rfl
               | some nd =>
                 cases nd with
                 | obj child =>
                   simp only
                   rw [omap_obind, ← ih]
-                  cases stepMember F false sub (getAttr child q) _ q rest (popIdx idxs).2 pl <;> rfl
+                  cases stepMember F false sub (getAttr child q) q rest (popIdx idxs).2 pl <;> rfl
                 | none => rfl
                 | leaf _ => rfl
                 | leaves _ => rfl
@@ -169,8 +172,11 @@ theorem stepMember_fst (F : Facts03) (strict : Bool) (fields : List Fld) (cur : 
             by_cases hs : strict
             · subst hs
               simp only [if_true]
-              have hss := strictSlot_fst sub ⟨fk, specOf fields, p, 1⟩ items (popIdx idxs).1
-              cases hsl : strictSlot sub ⟨fk, specOf fields, p, 1⟩ items (popIdx idxs).1 with
+              generalize htouch : (fun i => if F.freqTouch = true then
+                  [(⟨[((match F.freqScope with | .perMember => p | .perClass => natText cid), i)], specOf sub, [], 0⟩ : Ev)]
+                else []) = touch
+              have hss := strictSlot_fst sub ⟨[], specOf fields, p, 1⟩ touch items (popIdx idxs).1
+              cases hsl : strictSlot sub ⟨[], specOf fields, p, 1⟩ touch items (popIdx idxs).1 with
               | ok s =>
                 rw [hsl] at hss
                 simp only [omap_ok] at hss
@@ -182,7 +188,7 @@ theorem stepMember_fst (F : Facts03) (strict : Bool) (fields : List Fld) (cur : 
                   | obj child =>
                     simp only
                     rw [omap_obind, ← ih]
-                    cases stepMember F true sub (getAttr child q) _ q rest (popIdx idxs).2 pl <;> rfl
+                    cases stepMember F true sub (getAttr child q) q rest (popIdx idxs).2 pl <;> rfl
                   | none => rfl
                   | leaf _ => rfl
                   | leaves _ => rfl
@@ -192,16 +198,16 @@ theorem stepMember_fst (F : Facts03) (strict : Bool) (fields : List Fld) (cur : 
             · have hs' : strict = false := by simpa using hs
               subst hs'
               simp only [Bool.false_eq_true, if_false, obind_ok]
-              have hls := lenientSlot_fst sub ⟨fk, specOf fields, p, 1⟩ m items (popIdx idxs).1
+              have hls := lenientSlot_fst sub ⟨[], specOf fields, p, 1⟩ m items (popIdx idxs).1
               simp only [← hls]
-              cases hitem : (lenientSlot sub ⟨fk, specOf fields, p, 1⟩ m items (popIdx idxs).1).2.2.1[(lenientSlot sub ⟨fk, specOf fields, p, 1⟩ m items (popIdx idxs).1).1]? with
+              cases hitem : (lenientSlot sub ⟨[], specOf fields, p, 1⟩ m items (popIdx idxs).1).2.2.1[(lenientSlot sub ⟨[], specOf fields, p, 1⟩ m items (popIdx idxs).1).1]? with
               | none => rfl
               | some nd =>
                 cases nd with
                 | obj child =>
                   simp only
                   rw [omap_obind, ← ih]
-                  cases stepMember F false sub (getAttr child q) _ q rest (popIdx idxs).2 pl <;> rfl
+                  cases stepMember F false sub (getAttr child q) q rest (popIdx idxs).2 pl <;> rfl
                 | none => rfl
                 | leaf _ => rfl
                 | leaves _ => rfl
@@ -214,11 +220,11 @@ theorem stepMember_fst (F : Facts03) (strict : Bool) (fields : List Fld) (cur : 
           | none =>
             simp only
             rw [omap_obind, ← ih]
-            cases stepMember F strict sub (getAttr (freshAttrs sub) q) _ q rest idxs pl <;> rfl
+            cases stepMember F strict sub (getAttr (freshAttrs sub) q) q rest idxs pl <;> rfl
           | obj c =>
             simp only
             rw [omap_obind, ← ih]
-            cases stepMember F strict sub (getAttr c q) _ q rest idxs pl <;> rfl
+            cases stepMember F strict sub (getAttr c q) q rest idxs pl <;> rfl
           | leaf _ => rfl
           | leaves _ => rfl
           | arr _ _ => rfl
@@ -231,17 +237,17 @@ def walkT (strict : Bool) (fields : List Fld) (attrs : Attrs) (path : List Text)
   | p :: rest =>
     obind (stepMemberT strict fields (getAttr attrs p) p rest idxs pl) fun r => .ok (setAttr attrs p r)
 
-theorem walk_fst (F : Facts03) (strict : Bool) (fields : List Fld) (attrs : Attrs) (fk : FKey)
+theorem walk_fst (F : Facts03) (strict : Bool) (fields : List Fld) (attrs : Attrs)
     (path : List Text) (idxs : List Nat) (pl : Payload) :
-    omap Prod.fst (walk F strict fields attrs fk path idxs pl) = walkT strict fields attrs path idxs pl := by
+    omap Prod.fst (walk F strict fields attrs path idxs pl) = walkT strict fields attrs path idxs pl := by
   cases path with
   | nil => rfl
   | cons p rest =>
-    simp only [walk, walkT, omap_obind, ← stepMember_fst F strict fields (getAttr attrs p) fk p rest idxs pl]
-    cases stepMember F strict fields (getAttr attrs p) fk p rest idxs pl <;> rfl
+    simp only [walk, walkT, omap_obind, ← stepMember_fst F strict fields (getAttr attrs p) p rest idxs pl]
+    cases stepMember F strict fields (getAttr attrs p) p rest idxs pl <;> rfl
 
 /-- `stepKey` without the increments -/
-def stepKeyT (F : Facts03) (strict : Bool) (fields : List Fld) (table : List (Text × Member))
+def stepKeyT (F : Facts03) (strict soft : Bool) (fields : List Fld) (table : List (Text × Member))
     (attrs : Attrs) (kv : Text × List (Option Text)) : Outcome Attrs :=
   match stiGet table (stripIdx kv.1) with
   | none => .ok attrs
@@ -253,12 +259,12 @@ def stepKeyT (F : Facts03) (strict : Bool) (fields : List Fld) (table : List (Te
           (if mem.many then Payload.emptyArr else Payload.emptyObj mem.fields)
       else .ok attrs
     | some p =>
-      obind (toNative F p kv.2) fun vs =>
+      obind (toNative F soft mem.nillable p kv.2) fun vs =>
         walkT strict fields attrs mem.path (findIdx kv.1) (.prims mem.many vs)
 
 theorem stepKey_fst (F : Facts03) (cfg : Cfg) (fields : List Fld) (table : List (Text × Member))
     (st : Attrs × List Ev) (kv : Text × List (Option Text)) :
-    omap Prod.fst (stepKey F cfg fields table st kv) = stepKeyT F cfg.strict fields table st.1 kv := by
+    omap Prod.fst (stepKey F cfg fields table st kv) = stepKeyT F cfg.strict cfg.soft fields table st.1 kv := by
   unfold stepKey stepKeyT
   cases stiGet table (stripIdx kv.1) with
   | none => rfl
@@ -268,23 +274,23 @@ theorem stepKey_fst (F : Facts03) (cfg : Cfg) (fields : List Fld) (table : List 
     | none =>
       simp only
       split
-      · rw [omap_obind, ← walk_fst F cfg.strict fields st.1 []]
-        cases walk F cfg.strict fields st.1 [] mem.path (findIdx kv.1) _ <;> rfl
+      · rw [omap_obind, ← walk_fst F cfg.strict fields st.1]
+        cases walk F cfg.strict fields st.1 mem.path (findIdx kv.1) _ <;> rfl
       · rfl
     | some p =>
       simp only [omap_obind]
-      cases toNative F p kv.2 with
+      cases toNative F cfg.soft mem.nillable p kv.2 with
       | ok vs =>
         simp only [obind_ok]
-        rw [← walk_fst F cfg.strict fields st.1 []]
-        cases walk F cfg.strict fields st.1 [] mem.path (findIdx kv.1) _ <;> rfl
+        rw [← walk_fst F cfg.strict fields st.1]
+        cases walk F cfg.strict fields st.1 mem.path (findIdx kv.1) _ <;> rfl
       | fault => rfl
       | crash e => rfl
 
 theorem foldO_stepKey_fst (F : Facts03) (cfg : Cfg) (fields : List Fld) (table : List (Text × Member))
     (doc : Doc) (st : Attrs × List Ev) :
     omap Prod.fst (foldO (stepKey F cfg fields table) st doc) =
-      foldO (stepKeyT F cfg.strict fields table) st.1 doc := by
+      foldO (stepKeyT F cfg.strict cfg.soft fields table) st.1 doc := by
   induction doc generalizing st with
   | nil => rfl
   | cons kv r ih =>
@@ -304,10 +310,12 @@ theorem decode_eq_T (F : Facts03) (cfg : Cfg) (fields : List Fld) (doc : Doc)
     (htag : (F.tagScope = .perRequestClass && hasDup (cidsFields fields)) = false) :
     decode F cfg fields doc =
       omap (fun a => Node.obj (eraseAttrs a))
-        (foldO (stepKeyT F cfg.strict fields (stiFields cfg.delim [] fields)) (freshAttrs fields) (sortDoc F doc)) := by
+        (foldO (stepKeyT F cfg.strict false fields (stiFields cfg.delim [] fields)) (freshAttrs fields) (sortDoc F doc)) := by
   unfold decode
   simp only [htag, Bool.false_eq_true, if_false, hsoft, Bool.false_and]
-  rw [← foldO_stepKey_fst F cfg fields _ (sortDoc F doc) (freshAttrs fields, [])]
+  have h := foldO_stepKey_fst F cfg fields (stiFields cfg.delim [] fields) (sortDoc F doc) (freshAttrs fields, [])
+  rw [hsoft] at h
+  rw [← h]
   cases foldO (stepKey F cfg fields (stiFields cfg.delim [] fields)) (freshAttrs fields, []) (sortDoc F doc) <;> rfl
 
 end SpyneModel.Flat
